@@ -149,6 +149,9 @@ func TestVerifOrder(t *testing.T) {
 		for k := 0; k < vNonPoolVariants; k++ {
 			snaps = append(snaps, vGenNonPool(r, k))
 		}
+		for k := 0; k < 8; k++ { // selector grouping, nested L2 node sets, mixed-family pools with a node IP inside
+			snaps = append(snaps, vGenSelGroup(r, 3*k+r.Intn(3)), vGenL2Nested(r, k+8*r.Intn(3)), vGenMixedNode(r, r.Intn(64)))
+		}
 	}
 	for i := 0; i < n; i++ {
 		o := vGenOpts{MinObj: 3, MaxObj: 6, Wild: i%10 >= 7}
